@@ -14,6 +14,9 @@ import tlcrun          # noqa: E402
 MAXS = 3
 CUSTOM_ROWS = ["x", "y", "zed", "w", "v"]
 CUSTOM_COLS = ["p", "q1", "r", "s", "t"]
+# labels that look like numbers but are not the positions: '1' is the SECOND row, column '0' is the first
+NUMERIC_ROWS = ["2", "1", "3", "0", "5"]
+NUMERIC_COLS = ["0", "2", "1", "4", "3"]
 
 
 def pysel(ast):
@@ -65,8 +68,9 @@ def main(argv):
     if labels == "default":
         rl, cl = f"DefaultRows({nr})", f"DefaultCols({nc})"
     else:
-        rl = "<<" + ", ".join(f'"{x}"' for x in CUSTOM_ROWS[:nr]) + ">>"
-        cl = "<<" + ", ".join(f'"{x}"' for x in CUSTOM_COLS[:nc]) + ">>"
+        rws, cls_ = (NUMERIC_ROWS, NUMERIC_COLS) if labels == "numeric" else (CUSTOM_ROWS, CUSTOM_COLS)
+        rl = "<<" + ", ".join(f'"{x}"' for x in rws[:nr]) + ">>"
+        cl = "<<" + ", ".join(f'"{x}"' for x in cls_[:nc]) + ">>"
     with open(os.path.join(wd, mod + ".tla"), "w") as fh:
         fh.write(f"---- MODULE {mod} ----\nEXTENDS SlicerMC\nRL == {rl}\nCL == {cl}\n"
                  f"ASSUME PrintT(ToJson([labels |-> [rows |-> RL, cols |-> CL]]))\n====\n")
